@@ -68,10 +68,14 @@ def pt(u):
 
 def run_one(cfg, seed, c, hole):
     from tempest import Sampler
+    cfg = dict(cfg)
+    sharp = cfg.pop("sharp", False)   # a likelihood so peaked that the first positive temperature is the search resolution 2^-14
 
     def like(x):
         if hole and x[0] < -3.0:
             return -np.inf
+        if sharp:
+            return -sharp * float(np.sum(x ** 2)) + c
         return -0.5 * float(np.sum(x ** 2)) + 0.2 * float(np.sin(2 * x[0])) + c
 
     s = Sampler(pt, like, n_dim=2, n_particles=14, random_state=seed, **cfg)
@@ -162,13 +166,14 @@ def band_probe(run, tier, rng):
 
 def sweep(run, tier, rng):
     cfgs = [dict(clustering=False), dict(clustering=True, sample="rwm", resample="syst"), dict(clustering=False, volume_variation=0.5),
-            dict(clustering=False, volume_variation=0.05)]
+            dict(clustering=False, volume_variation=0.05), dict(clustering=False, sharp=1000.0, hole=True), dict(clustering=False, sharp=6000.0, hole=True), dict(clustering=False, sample="rwm", sharp=3000.0, hole=True)]
     if tier != "quick":
         cfgs += [dict(clustering=True), dict(clustering=False, sample="rwm"), dict(clustering=True, volume_variation=0.5, resample="syst")]
     shifts = [1e-3, -1.0, 37.5, -1e3] if tier == "quick" else [1e-3, -1e-3, 1.0, -1.0, 37.5, -37.5, 1e3, -1e3]
     for ci, cfg in enumerate(cfgs):
         seed = rng.randrange(10 ** 6)
-        hole = bool(ci % 2)
+        hole = bool(cfg.get("hole", ci % 2))
+        cfg = {k: v for k, v in cfg.items() if k != "hole"}
         try:
             base = run_one(cfg, seed, 0.0, hole)
         except Exception as e:
@@ -183,6 +188,9 @@ def sweep(run, tier, rng):
                 continue
             run.case(key=(ci, c), nontrivial=True)
             run.count(f"shift={c:g}")
+            if cfg.get("sharp"):
+                pos = [b for b in base["beta"] if b > 0]
+                run.count("sharp likelihood: first positive beta below 1e-4" if pos and pos[0] < 1e-4 else "sharp likelihood: first positive beta >= 1e-4")
             n = min(len(base["beta"]), len(r["beta"]))
             # first divergence of the schedule (a comparison may flip under rounding when it sits on its threshold)
             div = next((k for k in range(n) if abs(base["beta"][k] - r["beta"][k]) > 1e-9), None)
